@@ -49,6 +49,10 @@ def scope_specs(tier, seed):
         {"sid": "list", "family": "astral", "size": 5 if q else 6, "donor": ("astral", 4 if q else 5)},
         {"sid": "fixed", "family": "fixed", "size": 10 if q else 12, "donor": ("fixed", 8 if q else 10)},
     ]
+    # every (from, gapFrom, gapTo, to, slice, insert) on sequence-like content expressions: the gap lands between
+    # siblings that are already in the slice
+    specs.append({"sid": "struct", "family": "struct", "size": 4 if q else 5, "donor": ("struct", 5), "all_around": True,
+                  "tag": "all-quadruples"})
     if q:
         specs.append(extra[seed % len(extra)])
     else:
@@ -80,7 +84,11 @@ def enumerate_steps(c, sc, d, T, u, pool):
     marks = gen_steps.schema_marks(model, 4)
     yield from gen_steps.replace_steps(n, pool)
     if u.get("all_around"):
-        small = [s for s in pool if tk.content_size(model, s["content"]) <= 4][:30]
+        # nested, unmarked slices first: they are the ones with room (and siblings) around the insert position
+        def _rank(s):
+            k = jkey(s)
+            return ('"marks"' in k, -k.count('"content"'))
+        small = sorted((s for s in pool if tk.content_size(model, s["content"]) <= 4), key=_rank)[:30]
         yield from gen_steps.around_steps_all(n, small, model)
     yield from gen_steps.around_steps_structured(model, T, sc["types"])
     yield from gen_steps.mark_steps(n, marks)
